@@ -10,7 +10,7 @@ CLUSTERS = {
 }
 
 COMMON_TB = [
-    "extraction to OCaml with ExtrOcamlBasic + ExtrOcamlString only (no Extract Constant/Inductive of our own); OCaml 4.13.1; model/main_template.ml",
+    "extraction to OCaml with ExtrOcamlBasic + ExtrOcamlString only (no Extract Constant/Inductive of our own); OCaml 4.13.1; model/main_template.ml; cross-checked on every run: a sample of the cases (40 quick / 400 thorough) is evaluated inside Coq with vm_compute and compared with the extracted program's output, string for string",
     "harness (Go): generators, model view of Go values, comparison of projected observables (bin/check: canon/compare)",
 ]
 
@@ -196,10 +196,7 @@ PROPS = {
                 "RFC 6901 pointer) decoded by the extracted codec model; the three roots must agree; non-trivial: all; distinct = (graph, ref, kind)",
         "trusted_base": COMMON_TB + ["Expand/Expand.v: resolve / load / ptr_get transcribed from resolveRef, load and jsonpointer v0.21.1",
                                      "tools/c05_oracle.py (urllib's RFC 3986 join, a 15-line RFC 6901 evaluator)"],
-        "level_text": "Coq theorems (Props/C05.v): a successful resolution is the typed decoding of exactly the object the pointer designates in the "
-                      "document normalizeURI designates — never a value for a missing or non-object target; the way the root is supplied cannot "
-                      "matter for references with a URI part; ~0/~1 escaping is undone exactly; resolution needs no fuel. The model's resolve agrees "
-                      "with the implementation on thousands of (graph, ref, kind, root mode) cases per run.",
+        "level_text": "Coq theorems (Props/C05.v): a successful resolution is the typed decoding of exactly the object the pointer designates in the document normalizeURI designates — never a value for a missing or non-object target; for EVERY kind and every way of supplying the root (typed, generic, location only) and whatever the cache holds, a successful resolution returns sem_target_k (reference resolved against the base, document served there, pointer evaluated, value read as the kind) — hence the same answer however the root is supplied (Expand/ExpandElem.v: resolve_sem_k); the way the root is supplied cannot matter for references with a URI part; ~0/~1 escaping is undone exactly; resolution needs no fuel. The model's resolve agrees with the implementation on thousands of (graph, ref, kind, root mode) cases per run.",
         "level_note": "Partial: equality of typed-root lookups (JSONLookup) with generic lookups is property C15; it is assumed here. F13 (ResolveRef on a typed root at union positions) is an open finding.",
         "technique": "Coq proof about the resolver model + differential run + independent oracle",
         "assumptions": ["the typed root is observed through its JSON encoding (C15)"],
@@ -249,8 +246,8 @@ PROPS = {
                                      "correspondence scope: every generated graph except those with schema ids and prefix-sibling documents (the areas of the open findings F9, F10, F10b), which are judged by the oracle only; multi-hop parameter/response/path-item chains and imported circular schemas are compared since the repairs of F7 and F8",
                                      "harness/refgraph.go: the oracle's own dereferencer (independent of the library's resolver)",
                                      "Codec/Codec.v (typed decoding of every resolved target) and Base/Url.v (normalizeURI, rebase)"],
-        "level_text": 'Coq theorems (Props/C02.v over Expand/ExpandSim.v, ExpandSimCheck.v), unbounded: meaning is defined relationally (chases: "$ref replaces its holder", resolved against the containing document; sim n: level-by-level comparison; bisimilar = all n). Proved for every document store, state (cache and memo, i.e. every history of earlier expansions and every visiting order), parent stack, fuel, SkipSchemas and AbsoluteCircularRef setting: a successful schema walk returns a value that, read at the root location, is bisimilar to its input read in its own document; resolveRef computes the document-relative target whatever root the resolver holds (resolver/base coherence is an invariant maintained by transitiveResolver); the graph hypotheses are decided by a verified checker (check_nodes_sound) and discharged by computation on a concrete cross-document cyclic graph.',
-        "level_note": 'Partial: (1) the theorem covers the schema walk (expandSchema/expandSchemaRef: definitions and every schema below parameters/responses); the $ref chains of parameters, responses and path items (deref) are outside it and rest on correspondence + oracle (this is where the defects F7 and F8 were found; both are repaired and the model follows the repaired code); (2) hypotheses carve out schema ids (F10/F10b), string-prefix sibling documents (F9) and ContinueOnError; (3) two URL-algebra facts (a kept-resolver reference stays in its document; the rendered text of a kept reference resolves back to the same target) are decided per graph by the checker, not proved for all URLs.',
+        "level_text": 'Coq theorems (Props/C02.v over Expand/ExpandSim.v, ExpandSimCheck.v), unbounded: meaning is defined relationally (chases: "$ref replaces its holder", resolved against the containing document; sim n: level-by-level comparison; bisimilar = all n). Proved for every document store, state (cache and memo, i.e. every history of earlier expansions and every visiting order), parent stack, fuel, SkipSchemas and AbsoluteCircularRef setting: a successful schema walk returns a value that, read at the root location, is bisimilar to its input read in its own document; resolveRef computes the document-relative target whatever root the resolver holds (resolver/base coherence is an invariant maintained by transitiveResolver); the graph hypotheses are decided by a verified checker (check_nodes_sound) and discharged by computation on a concrete cross-document cyclic graph. ELEMENT LEVEL (Expand/ExpandElem.v): the $ref chains of parameters/responses/path items (deref) are followed hop by hop in the document each hop lands in — holder, base and resolver root returned are those of the end of the chain, resolver and base coherent (the repaired defect F7 made this false) — and an expanded parameter/response has the members of the end of its chain with a bisimilar schema; discharged on a chain crossing two documents.',
+        "level_note": 'Partial: (1) the theorems cover the schema walk (expandSchema/expandSchemaRef), deref and expandParameterOrResponse; their composition over operations, path items and the four sections of ExpandSpec is not proved and rests on correspondence + oracle; a chain cut as circular (a parameter that refers only to itself) is outside the element theorem; (2) hypotheses carve out schema ids (F10/F10b), string-prefix sibling documents (F9) and ContinueOnError; (3) two URL-algebra facts (a kept-resolver reference stays in its document; the rendered text of a kept reference resolves back to the same target) are decided per graph by the checker, not proved for all URLs.',
         "technique": "Coq proof (bisimulation by induction on fuel and tree size) about a hand-written executable model of the expander + differential run (exact on acyclic graphs, unfoldings on cyclic ones) + property oracle with an independent dereferencer on the implementation",
         "assumptions": ["loader is a function of the URL during one call", "the root document is served at its own location with the content the caller passes"],
     },
@@ -273,8 +270,8 @@ PROPS = {
         "trusted_base": COMMON_TB + ["Expand/Expand.v: hand model of expander.go / schema_loader.go / resolver.go on JSON trees (base-path threading, parent stack, memo of circular refs, resolver roots, deref chains, rebasing, SkipSchemas/ContinueOnError/AbsoluteCircularRef, cache and loader log); abstractions: sub-schemas visited in JSON member order, `#/` refs into the live root read the original root (outputs on cyclic graphs compared through unfoldings)",
                                      "correspondence scope: every generated graph except those with schema ids and prefix-sibling documents (the areas of the open findings F9, F10, F10b), which are judged by the oracle only; multi-hop parameter/response/path-item chains and imported circular schemas are compared since the repairs of F7 and F8",
                                      "Codec/Codec.v (typed decoding of every resolved target) and Base/Url.v (normalizeURI, rebase)"],
-        "level_text": 'Coq theorems (Props/C04.v), unbounded: the tree walk is a structural recursion (guard-checked: it cannot diverge or get stuck); running out of fuel d requires d pairwise distinct canonical references nested in one another, all distinct from those on the stack (pigeonhole on the parent stack); hence fuel |U|+1 is never exhausted when the canonical references lie in a finite set U. For every store, loader, option setting, schema and state.',
-        "level_note": 'Partial for the runtime half: stack exhaustion and panics are behaviour of the Go runtime that a functional model cannot exhibit; they are covered by the oracle (watchdog worker). F10 (relative-directory id on a cycle: U is infinite) is an open finding.',
+        "level_text": 'Coq theorems (Props/C04.v), unbounded: the tree walk is a structural recursion (guard-checked: it cannot diverge or get stuck); running out of fuel d requires d pairwise distinct canonical references nested in one another, all distinct from those on the stack (pigeonhole on the parent stack); RELATIVE TO THE REFERENCE GRAPH (Expand/ExpandTermG.v) those are references of the graph, so fuel above the number of references of a finite graph is never exhausted — from every consistent state, stack, resolver root, skip/abs setting (strict mode), and with every reference resolvable the expansion RETURNS A RESULT (ExpandComplete.v); the same pigeonhole for the $ref chains of parameters/responses/path items (deref), absolute and relative to the element graph; the composition over operations, path items and the four sections of ExpandSpec consumes no fuel. Discharged on the cyclic two-document graph: 5 references, fuel 6 suffices from any state.',
+        "level_note": 'Partial for the runtime half: stack exhaustion and panics are behaviour of the Go runtime that a functional model cannot exhibit; they are covered by the oracle (watchdog worker). The bound is relative to a finite graph satisfying the C02 hypotheses (no ids: F10, a relative-directory id on a cycle makes the set of references infinite and the expansion diverge, is an open finding). An earlier version of the bound quantified over ALL canonical references, a hypothesis no finite list satisfies; it was replaced (DESIGN.md section 12).',
         "technique": "Coq proof about a hand-written executable model of the expander + differential run (exact on acyclic graphs, unfoldings on cyclic ones) + property oracle on the implementation",
         "assumptions": ["loader is a function of the URL during one call", "documents are in normal form (reference objects carry only $ref)"],
     },
@@ -285,8 +282,8 @@ PROPS = {
         "trusted_base": COMMON_TB + ["Expand/Expand.v: hand model of expander.go / schema_loader.go / resolver.go on JSON trees (base-path threading, parent stack, memo of circular refs, resolver roots, deref chains, rebasing, SkipSchemas/ContinueOnError/AbsoluteCircularRef, cache and loader log); abstractions: sub-schemas visited in JSON member order, `#/` refs into the live root read the original root (outputs on cyclic graphs compared through unfoldings)",
                                      "correspondence scope: every generated graph except those with schema ids and prefix-sibling documents (the areas of the open findings F9, F10, F10b), which are judged by the oracle only; multi-hop parameter/response/path-item chains and imported circular schemas are compared since the repairs of F7 and F8",
                                      "Codec/Codec.v (typed decoding of every resolved target) and Base/Url.v (normalizeURI, rebase)"],
-        "level_text": 'Coq theorems (Props/C08.v): strict mode turns an unresolvable schema reference into an error; continue mode leaves it verbatim (missing document/pointer) and returns no error; errors of the traversal always come from a child / a failed follow / a failed resolution / an unnormalisable URL (never invented), and a failing child stops the fold (never swallowed); F22 (ill-typed target emptied in continue mode) as a theorem about the transcribed behaviour.',
-        "level_note": 'Partial: the iff over whole documents (must_follow set) is checked by the oracle; the theorems are per reference and per fold.',
+        "level_text": 'Coq theorems (Props/C08.v): strict mode turns an unresolvable schema reference into an error; continue mode leaves it verbatim (missing document/pointer) and returns no error; errors of the traversal always come from a child / a failed follow / a failed resolution / an unnormalisable URL (never invented), and a failing child stops the fold (never swallowed); NO SPURIOUS ERROR (Expand/ExpandComplete.v): when every reference of the graph is resolvable the schema expansion with fuel above the number of references returns a result from every consistent state; F22 (ill-typed target emptied in continue mode) as a theorem about the transcribed behaviour.',
+        "level_note": 'Partial: the converse at document level (an unresolvable reference that HAS TO be followed yields an error) is proved per reference (esr_strict) and checked by the oracle for whole documents; parameters/responses/path items are covered by correspondence + oracle.',
         "technique": "Coq proof about a hand-written executable model of the expander + differential run (exact on acyclic graphs, unfoldings on cyclic ones) + property oracle on the implementation",
         "assumptions": ["loader is a function of the URL during one call", "documents are in normal form (reference objects carry only $ref)"],
     },
@@ -297,8 +294,8 @@ PROPS = {
         "trusted_base": COMMON_TB + ["Expand/Expand.v: hand model of expander.go / schema_loader.go / resolver.go on JSON trees (base-path threading, parent stack, memo of circular refs, resolver roots, deref chains, rebasing, SkipSchemas/ContinueOnError/AbsoluteCircularRef, cache and loader log); abstractions: sub-schemas visited in JSON member order, `#/` refs into the live root read the original root (outputs on cyclic graphs compared through unfoldings)",
                                      "correspondence scope: every generated graph except those with schema ids and prefix-sibling documents (the areas of the open findings F9, F10, F10b), which are judged by the oracle only; multi-hop parameter/response/path-item chains and imported circular schemas are compared since the repairs of F7 and F8",
                                      "Codec/Codec.v (typed decoding of every resolved target) and Base/Url.v (normalizeURI, rebase)"],
-        "level_text": 'Coq theorems (Props/C09.v): with SkipSchemas a schema holding a $ref is finished at once — nothing resolved, followed or loaded, state untouched, only the text rebased to the root-relative rendering of its canonical target; the definitions section comes out exactly as it went in; no fuel is needed for schema refs.',
-        "level_note": 'Partial: that the rebased text designates the same target (URL algebra of rebase; fails for prefix-sibling documents, F9) and the skip-then-full equality are checked by the oracle.',
+        "level_text": 'Coq theorems (Props/C09.v): with SkipSchemas a schema holding a $ref is finished at once — nothing resolved, followed or loaded, state untouched, only the text rebased to the root-relative rendering of its canonical target; the definitions section comes out exactly as it went in; no fuel is needed for schema refs; MEANING: the bisimulation theorem of C02 holds in skip mode — every schema that comes out of a SkipSchemas walk is bisimilar, read at the root location, to what went in read in its own document (graph hypotheses decided by the verified checker, which checks the rendering used by skip mode; discharged on a schema of the second document of the example graph).',
+        "level_note": 'Partial: that the rebased text designates the same target is decided per graph by the checker (G_render), not for all URLs (it fails for prefix-sibling documents, F9); parameters/responses/path items in skip mode and the skip-then-full equality are checked by the oracle.',
         "technique": "Coq proof about a hand-written executable model of the expander + differential run (exact on acyclic graphs, unfoldings on cyclic ones) + property oracle on the implementation",
         "assumptions": ["loader is a function of the URL during one call", "documents are in normal form (reference objects carry only $ref)"],
     },
@@ -310,7 +307,7 @@ PROPS = {
         "trusted_base": COMMON_TB + ["Expand/Expand.v: hand model of expander.go / schema_loader.go / resolver.go on JSON trees (base-path threading, parent stack, memo of circular refs, resolver roots, deref chains, rebasing, SkipSchemas/ContinueOnError/AbsoluteCircularRef, cache and loader log); abstractions: sub-schemas visited in JSON member order, `#/` refs into the live root read the original root (outputs on cyclic graphs compared through unfoldings)",
                                      "correspondence scope: every generated graph except those with schema ids and prefix-sibling documents (the areas of the open findings F9, F10, F10b), which are judged by the oracle only; multi-hop parameter/response/path-item chains and imported circular schemas are compared since the repairs of F7 and F8",
                                      "Codec/Codec.v (typed decoding of every resolved target) and Base/Url.v (normalizeURI, rebase)"],
-        "level_text": 'Coq theorems (Props/C10.v): the entry points are set-up code around the same core: they terminate under the same pigeonhole bound, read `#/` references in the supplied root (cached under the pseudo location), and keep the cache discipline. Non-modification of root and options cannot be exhibited by a functional model and is checked on the implementation.',
+        "level_text": "Coq theorems (Props/C10.v): the entry points are set-up code around the same core: they terminate under the same pigeonhole bound, read `#/` references in the supplied root (cached under the pseudo location), keep the cache discipline, and INHERIT THE MEANING THEOREMS of C02: ExpandSchemaWithBasePath and ExpandSchema(root) return a schema bisimilar to the element in its context whenever the initial cache is consistent with the loader; ExpandParameter/ExpandResponse against a base location return the end of the element's $ref chain with a bisimilar schema; discharged on the example graph. Non-modification of root and options cannot be exhibited by a functional model and is checked on the implementation.",
         "level_note": 'Partial (aliasing): root/options mutation is a runtime property (oracle: before/after serialisation).',
         "technique": "Coq proof about a hand-written executable model of the expander + differential run (exact on acyclic graphs, unfoldings on cyclic ones) + property oracle on the implementation",
         "assumptions": ["loader is a function of the URL during one call", "documents are in normal form (reference objects carry only $ref)"],
@@ -323,8 +320,8 @@ PROPS = {
         "trusted_base": COMMON_TB + ["Expand/Expand.v: hand model of expander.go / schema_loader.go / resolver.go on JSON trees (base-path threading, parent stack, memo of circular refs, resolver roots, deref chains, rebasing, SkipSchemas/ContinueOnError/AbsoluteCircularRef, cache and loader log); abstractions: sub-schemas visited in JSON member order, `#/` refs into the live root read the original root (outputs on cyclic graphs compared through unfoldings)",
                                      "correspondence scope: every generated graph except those with schema ids and prefix-sibling documents (the areas of the open findings F9, F10, F10b), which are judged by the oracle only; multi-hop parameter/response/path-item chains and imported circular schemas are compared since the repairs of F7 and F8",
                                      "Codec/Codec.v (typed decoding of every resolved target) and Base/Url.v (normalizeURI, rebase)"],
-        "level_text": 'Coq theorem (Props/C18.v), unbounded: at every point of an expansion (also at an error), for every supplied cache: each document the loader served was requested exactly once, none of them was in the supplied cache, all are now cached, nothing was evicted — an invariant carried through the whole traversal by induction on fuel and tree size.',
-        "level_note": 'Partial: transparency of results w.r.t. the cache contents (same output with any consistent cache) is checked by the oracle; refused requests may be repeated (not cached, as in the code).',
+        "level_text": 'Coq theorems (Props/C18.v), unbounded: (1) at every point of an expansion (also at an error), for every supplied cache: each document the loader served was requested exactly once, none of them was in the supplied cache, all are now cached, nothing was evicted — an invariant carried through the whole traversal by induction on fuel and tree size; (2) TRANSPARENCY (Expand/ExpandCache.v): two runs of the schema expansion from states with the same memo but arbitrary caches consistent with the loader (empty, pre-loaded, reused) and arbitrary coherent resolver roots return the same JSON and the same memo — for every store, stack, fuel and skip/abs setting in strict mode, graph hypotheses decided by the verified checker; discharged on the cyclic two-document graph (empty cache vs everything pre-loaded).',
+        "level_note": 'Partial: transparency is proved for the schema walk when both runs succeed (that a success with one cache implies a success with the other — completeness of resolution — is not proved); parameter/response/path-item levels and ExpandSpec as a whole are checked by the oracle; refused requests may be repeated (not cached, as in the code).',
         "technique": "Coq proof about a hand-written executable model of the expander + differential run (exact on acyclic graphs, unfoldings on cyclic ones) + property oracle on the implementation",
         "assumptions": ["loader is a function of the URL during one call", "documents are in normal form (reference objects carry only $ref)"],
     },
